@@ -83,6 +83,11 @@ class FakeRedis:
             self._cmd('DEL', k)
             self.server.exp.pop(_b(k), None)
             n += int(self.server.d.pop(_b(k), None) is not None)
+            # a command that was executed but whose reply never arrived (the connection dropped): the client sees a ConnectionError
+            fault = getattr(self.server, 'reply_lost', None)
+            if fault is not None and fault('DEL', _b(k), self):
+                import redis as _redis
+                raise _redis.ConnectionError('connection lost while waiting for the reply')
         return n
 
     def keys(self, pat='*'):
